@@ -62,6 +62,86 @@ pub fn err_facts(text: &str) -> (String, u64, u64) {
     } else if text.starts_with("conversion to") {
         ("convert".into(), 0, 0)
     } else {
+        err_facts_reworded(text)
+    }
+}
+
+/// Fallback when the text is not in the wording of the pinned commit: C17 speaks about the figures an error names, not
+/// about its sentences.  The kind is taken from keywords, the figures are all the integers in the text; which of two
+/// figures is the *needed* width is decided by the clause it stands in ("need", "requir"), else by order.
+fn err_facts_reworded(text: &str) -> (String, u64, u64) {
+    let low = text.to_ascii_lowercase();
+    // integers, each with the clause (split at `;`, `,`, " but ") it stands in
+    let mut clauses: Vec<&str> = vec![];
+    let mut rest = low.as_str();
+    loop {
+        let cut = [rest.find(';'), rest.find(','), rest.find(" but ")].iter().flatten().min().copied();
+        match cut {
+            Some(i) => {
+                clauses.push(&rest[..i]);
+                rest = &rest[i + 1..];
+            }
+            None => {
+                clauses.push(rest);
+                break;
+            }
+        }
+    }
+    let mut nums: Vec<(u64, bool)> = vec![]; // (value, stands in a "needed" clause)
+    for c in &clauses {
+        let needed = c.contains("need") || c.contains("requir");
+        let b = c.as_bytes();
+        let mut i = 0;
+        while i < b.len() {
+            if b[i].is_ascii_digit() && (i == 0 || !b[i - 1].is_ascii_alphanumeric()) {
+                let j = i + b[i..].iter().take_while(|x| x.is_ascii_digit()).count();
+                if j == b.len() || !b[j].is_ascii_alphanumeric() {
+                    if let Ok(v) = c[i..j].parse::<u64>() {
+                        nums.push((v, needed));
+                    }
+                }
+                i = j;
+            } else {
+                i += 1;
+            }
+        }
+    }
+    // a quoted single character
+    let quoted: Option<u64> = {
+        let cs: Vec<char> = text.chars().collect();
+        let mut q = None;
+        for i in 0..cs.len().saturating_sub(2) {
+            if (cs[i] == '`' || cs[i] == '\'' || cs[i] == '"') && cs[i + 2] == cs[i] {
+                q = Some(cs[i + 1] as u32 as u64);
+                break;
+            }
+        }
+        q
+    };
+    if low.contains("conversion") || low.contains("convert") {
+        ("convert".into(), 0, 0)
+    } else if low.split(|c: char| !c.is_ascii_alphabetic()).any(|w| matches!(w, "end" | "ended" | "ends" | "eof" | "incomplete" | "truncated")) {
+        ("end".into(), 0, 0)
+    } else if low.contains("buffer") {
+        ("buffer".into(), 0, 0)
+    } else if low.contains("source") {
+        ("source".into(), 0, 0)
+    } else if let (Some(c), true) = (quoted, low.contains("char") || low.contains("unexpected") || low.contains("invalid") || low.contains("found")) {
+        ("char".into(), c, 0)
+    } else if nums.len() == 2 {
+        let (cap, need) = match (nums[0].1, nums[1].1) {
+            (true, false) => (nums[1].0, nums[0].0),
+            _ => (nums[0].0, nums[1].0),
+        };
+        // a length mismatch carries a note about the length or size of what was given
+        if low.contains("length") || low.contains("exact") || low.contains("multiple") {
+            ("size".into(), cap, need)
+        } else {
+            ("overflow".into(), cap, need)
+        }
+    } else if nums.len() == 1 {
+        ("expoverflow".into(), nums[0].0, 0)
+    } else {
         ("other".into(), 0, 0)
     }
 }
